@@ -22,6 +22,9 @@ CHECKS["C11"] = ("property-based testing (rapid): rule-breaking edits at generat
 CHECKS["C18"] = ("property-based testing (rapid): generated programs vs independent DXBC container + LLVM 3.7 bitstream reader",
          "Corpus and generated vertex/fragment/compute programs (up to thousands of instructions, hundreds of blocks) x shader models 6.0-6.6 x binding maps x hash mode are compiled by dxil.Compile; every returned container is parsed by an independent reader (part table, sizes, retail/bypass hash, HASH part, program header, ISG1/OSG1/PSG1, PSV0, bitstream blocks/abbrevs/alignment, type/value/metadata operand indices and LLVM-reader type agreement) and recompiled to check determinism. Exploration only.",
          "Trusted: verif/internal/dxbc (hash cross-validated on two real DXC containers shipped in the repository).", "DESIGN.md §4 C18")
+CHECKS["C09"] = ("property-based testing (rapid): generated + corpus programs vs independent strict IR validator and typifier",
+         "Every module returned by lowering for corpus files and generated programs is judged by an independent implementation of the stated IR contract (handle order, no abstract kinds, type dedup, recorded type = independently inferred type, emit discipline on every path, returns, stores, calls, entry-point and global bindings) plus naga's own validator. Exploration only.",
+         "Trusted: verif/internal/irx (typifier and validator written from the WGSL / upstream-naga typing rules; rules relaxed where naga-go's conventions legitimately differ are listed in the agent report and DESIGN.md).", "DESIGN.md §4 C09")
 PENDING = {}  # filled below
 
 def main():
